@@ -1,7 +1,7 @@
 #!/venv/bin/python
 """Run the checks against behaviour-preserving maintenance patches.
 
-usage: tools/benignrun.py [--dir DIR] [--own] [--write-expected] [ids...]
+usage: tools/benignrun.py [--dir DIR] [--own | --own-of CXX] [--write-expected] [ids...]
 DIR (default /verif/regress/benign) holds <id>/patch.diff + meta.json (meta['property']).
 Each patch is applied to a scratch copy of /repo's tracked tree and *every* property's quick
 check is run on it (or only the patch's own property with --own).  Expected: exit 0 everywhere.
@@ -40,6 +40,9 @@ def main():
     if '--dir' in argv:
         i = argv.index('--dir'); base = argv[i + 1]; del argv[i:i + 2]
     own = '--own' in argv
+    own_of = None
+    if '--own-of' in argv:
+        i = argv.index('--own-of'); own_of = argv[i + 1]; del argv[i:i + 2]; own = True
     write = '--write-expected' in argv
     ids = [a for a in argv if not a.startswith('--')]
     jobs = []
@@ -52,7 +55,7 @@ def main():
                 prop = json.load(open(f'{root}/meta.json'))['property']
             except Exception:
                 prop = bid[:3]
-            jobs.append((bid, f'{root}/patch.diff', prop))
+            jobs.append((bid, f'{root}/patch.diff', own_of or prop))
     bad = 0
     expected = {}
     with ThreadPoolExecutor(8) as ex:
